@@ -1,6 +1,7 @@
 """C18 harness library: real read_object under budgets, consumer probe, in-flight accounting."""
 from __future__ import annotations
 
+import json
 import os
 import threading
 from typing import Any, Dict, List, Optional
@@ -192,6 +193,33 @@ def read_cases(ctx: Ctx, case: Dict[str, Any], suite: str):
                 ctx.count("out." + out_kind)
                 ctx.case(suite, {"path": path, "budget": budget, "obj_out": out_kind, "entry": type(entry).__name__, "size": size},
                          nontrivial=True, key=[case["states"], case["knobs"], path, budget, out_kind, nobatch])
+    # one Snapshot object serving a sequence of read_object calls that alternate between the ranks' views (seed C18-H:
+    # state remembered from an earlier call on the same object must not leak into a later one); deterministic order
+    alt = sorted(paths, key=lambda p: (p.split("/", 1)[1], int(p.split("/", 1)[0])))
+    for order_name, order in (("alternating", alt), ("alternating_reversed", alt[::-1])):
+        if len({p.split("/", 1)[0] for p in order}) < 2:
+            break
+        shared = w1.run1(lambda: Snapshot(ROOT))
+        for path in order:
+            want = lookup(saved[int(path.split("/", 1)[0])], path)
+            inp = {"case": case, "path": path, "budget": None, "obj_out": "none", "shared_object": order_name, "sequence": order}
+            try:
+                got = w1.run1(lambda: shared.read_object(path))
+            except Exception as e:  # noqa
+                ctx.fail("read-object-raised", f"read_object on a shared Snapshot object raised {type(e).__name__}: {str(e)[:200]}", inp, None, suite=suite)
+                continue
+            d = gen.deep_eq(want, got)
+            if d is not None:
+                ctx.fail("read-object-value", "read_object on a Snapshot object that served another rank's path before returned a value different from the saved one",
+                         inp, d, suite=suite)
+            ctx.count("shared_object.reads")
+            ctx.case(suite, {"path": path, "shared_object": order_name}, nontrivial=True, key=[case["states"], case["knobs"], path, order_name])
+        try:
+            w1.run1(lambda: shared.read_object("0/s/__nope__"))
+            ctx.fail("read-object-missing-path-no-raise", "read_object of a path not in the manifest returned normally (shared object)",
+                     {"case": case, "path": "0/s/__nope__", "shared_object": order_name}, None, suite=suite)
+        except Exception:
+            pass
     # paths not in the manifest raise
     for bogus in ["0/s/__nope__", "0/nope", str(W + 3) + "/s", paths[0] + "/x" if paths else "0/x"]:
         try:
@@ -347,4 +375,16 @@ def gen_case(rng) -> Dict[str, Any]:
     states = [base for _ in range(W)]
     kn = {"chunk": rng.choice([None, 1, 8, 16, 40]), "slab": rng.choice([None, 1, 16, 64]), "nobatch": rng.choice([False, True]),
           "budget": 10 ** 9}
-    return {"world": W, "states": states, "replicated": rng.choice([[], ["**"]]) if W > 1 else [], "knobs": kn}
+    replicated = rng.choice([[], ["**"]]) if W > 1 else []
+    if W > 1 and not replicated:
+        # nothing replicated: the ranks hold DIFFERENT values under the same logical paths, and one path exists on the last
+        # rank only - a read through the wrong rank's view is then visible (seed C18-H)
+        have = {json.dumps(it[0], sort_keys=True) for it in base["items"]}
+        states = []
+        for r in range(W):
+            extra = [[gen.key_desc("rkint"), {"t": "int", "v": str(1000 + r)}], [gen.key_desc("rktensor"), gen.rand_tensor_desc(rng, 24)]]
+            if r == W - 1:
+                extra.append([gen.key_desc("rkonly"), {"t": "str", "v": [ord(c) for c in "last"]}])
+            extra = [it for it in extra if json.dumps(it[0], sort_keys=True) not in have]
+            states.append({"t": base["t"], "items": list(base["items"]) + extra})
+    return {"world": W, "states": states, "replicated": replicated, "knobs": kn}
